@@ -1222,6 +1222,15 @@ class MetaModel(object):
         source_metaclass = self.find_metaclass(source_kind)
         target_metaclass = self.find_metaclass(target_kind)
 
+        # attribute names are case insensitive, use the declared spelling
+        def declared(metaclass, keys):
+            names = dict((name.upper(), name) 
+                         for name in metaclass.attribute_names)
+            return [names.get(key.upper(), key) for key in keys]
+        
+        source_keys = declared(source_metaclass, source_keys)
+        target_keys = declared(target_metaclass, target_keys)
+
         source_link = target_metaclass.add_link(source_metaclass, rel_id,
                                                 many=source_many,
                                                 phrase=target_phrase,
